@@ -1,6 +1,7 @@
 import ConfModel.Driver.Common
 import ConfModel.Model.Trie
 import ConfModel.Spec.Glob
+import ConfModel.Driver.C05
 namespace ConfModel.Driver.C08
 open Lean ConfModel.Driver ConfModel.Trie ConfModel.Glob
 
@@ -58,6 +59,10 @@ def handle : Handler := fun op inp impl =>
     { agree := cls == mCls && lst == mList, holds := holds, nontrivial := mustReject,
       model := Json.mkObj [("class", mCls), ("list", toJson mList)], cls := mCls,
       why := if holds then "" else "dead patterns " ++ toString (dead.map join) ++ " both " ++ toString (both.map join) }
+  | "dispatch" =>
+    -- judged by the C05 driver: the names handed to the client are exactly the permutations the
+    -- glob semantics select (run patterns, skip patterns, marked gRPC-peer names)
+    ConfModel.Driver.C05.handle "run" inp impl
   | "cli" =>
     let files := (arr (field inp "files")).map strList
     let args := strList (field inp "args")
